@@ -1,13 +1,19 @@
 import WS.Driver.Conn
+import WS.Driver.Hs
 open WS.Drv
 
 partial def loop (h : IO.FS.Stream) (out : IO.FS.Stream) (sc : Scn) : IO Unit := do
   let line ← h.getLine
   if line.isEmpty then return ()
   let line := (line.dropEndWhile (fun c => c == '\n' || c == '\r')).toString
-  let (sc', o) := step sc line
-  out.putStrLn o
-  loop h out sc'
+  match hsStep (tokens line) with
+  | some o =>
+    out.putStrLn o
+    loop h out sc
+  | none =>
+    let (sc', o) := step sc line
+    out.putStrLn o
+    loop h out sc'
 
 def main : IO Unit := do
   let stdin ← IO.getStdin
